@@ -181,8 +181,9 @@ func (d *deadliner) run(ctx context.Context, deadlineFunc DeadlineFunc) {
 				continue
 			}
 
-			// Ignore (and signal) duties that have already expired.
-			if deadline.Before(d.clock.Now()) {
+			// Ignore (and signal) duties that have already expired. A duty added exactly at its deadline
+			// counts as expired: it may already have been emitted at this instant and must not be emitted twice.
+			if !deadline.After(d.clock.Now()) {
 				input.success <- DeadlineExpired
 				continue
 			}
